@@ -82,6 +82,10 @@ func (r *defaultSingletonComponentRegistry) GetSingletonOrCreateByFactory(name s
 	r.logger().Tracef("create instance of singleton '%s'", name)
 	singleton, err := factory.GetComponent()
 	if err != nil {
+		//creation failed: drop the in-creation mark and any early reference of the failed attempt
+		r.singletonCurrentlyInCreation.Remove(name)
+		r.earlySingletonObjects.Delete(name)
+		r.singletonFactories.Delete(name)
 		return nil, err
 	}
 	r.logger().Tracef("singleton '%s' finished creating", name)
